@@ -20,11 +20,17 @@ fn meta(_ctx: &Ctx) -> EvidenceMeta {
     }
 }
 
-/// A custom section that roots one function (DESIGN: custom-section roots).
+/// A custom section that roots one function and, when the module has them,
+/// one memory, one table and one global (DESIGN: custom-section roots).
 #[derive(Debug)]
 struct RootSection {
     func: walrus::FunctionId,
+    mem: Option<walrus::MemoryId>,
+    table: Option<walrus::TableId>,
+    global: Option<walrus::GlobalId>,
     seen_index: std::sync::Arc<std::sync::Mutex<Option<u32>>>,
+    /// output indices of the rooted memory, table and global
+    seen_others: std::sync::Arc<std::sync::Mutex<[Option<u32>; 3]>>,
 }
 impl walrus::CustomSection for RootSection {
     fn name(&self) -> &str {
@@ -32,10 +38,24 @@ impl walrus::CustomSection for RootSection {
     }
     fn data(&self, ids: &walrus::IdsToIndices) -> std::borrow::Cow<[u8]> {
         *self.seen_index.lock().unwrap() = Some(ids.get_func_index(self.func));
+        *self.seen_others.lock().unwrap() = [
+            self.mem.map(|m| ids.get_memory_index(m)),
+            self.table.map(|t| ids.get_table_index(t)),
+            self.global.map(|g| ids.get_global_index(g)),
+        ];
         std::borrow::Cow::Borrowed(&[])
     }
     fn add_gc_roots(&self, roots: &mut walrus::passes::Roots) {
         roots.push_func(self.func);
+        if let Some(m) = self.mem {
+            roots.push_memory(m);
+        }
+        if let Some(t) = self.table {
+            roots.push_table(t);
+        }
+        if let Some(g) = self.global {
+            roots.push_global(g);
+        }
     }
 }
 
@@ -67,9 +87,30 @@ fn rooted_mode(ctx: &Ctx, input: &Input, out: &mut CaseOut) -> Result<(), Failur
     let seen = std::sync::Arc::new(std::sync::Mutex::new(None));
     let seen2 = seen.clone();
     let mut cfg = crate::wal::Cfg::plain().to_config();
+    // every second case also roots one memory, table and global through the
+    // section (imported or not); nothing else may refer to them
+    let (n_m, n_t, n_g) = (da.n_mems(), da.n_tables(), da.n_globals());
+    let root_others = pick & 0x80 != 0;
+    let tm = if root_others && n_m > 0 { Some((pick as u32 / 3) % n_m) } else { None };
+    let tt = if root_others && n_t > 0 { Some((pick as u32 / 5) % n_t) } else { None };
+    let tg = if root_others && n_g > 0 { Some((pick as u32 / 7) % n_g) } else { None };
+    let seen_others = std::sync::Arc::new(std::sync::Mutex::new([None; 3]));
+    let seen_others2 = seen_others.clone();
     cfg.on_parse(move |m, ids| {
         let f = ids.get_func(target)?;
-        m.customs.add(RootSection { func: f, seen_index: seen2.clone() });
+        let mem = match tm {
+            Some(i) => Some(ids.get_memory(i)?),
+            None => None,
+        };
+        let table = match tt {
+            Some(i) => Some(ids.get_table(i)?),
+            None => None,
+        };
+        let global = match tg {
+            Some(i) => Some(ids.get_global(i)?),
+            None => None,
+        };
+        m.customs.add(RootSection { func: f, mem, table, global, seen_index: seen2.clone(), seen_others: seen_others2.clone() });
         Ok(())
     });
     let mut m = match crate::wal::parse(&bytes, &cfg) {
@@ -109,6 +150,34 @@ fn rooted_mode(ctx: &Ctx, input: &Input, out: &mut CaseOut) -> Result<(), Failur
         Ok(d) => d,
         Err(_) => return Ok(()),
     };
+    // the other rooted entities must be in the output, with their types, at
+    // the indices the section was given
+    let so = *seen_others.lock().unwrap();
+    if let (Some(i), Some(j)) = (tm, so[0]) {
+        if da.mem_ty(i) != db.mem_ty(j) {
+            return Err(Failure::new(
+                "custom-root:memory-lost-or-changed",
+                format!("memory {} ({:?}) rooted by a custom section is at output index {} as {:?} [{}]", i, da.mem_ty(i), j, db.mem_ty(j), origin),
+            ));
+        }
+        out.label("mode:custom-section-roots-memory");
+    }
+    if let (Some(i), Some(j)) = (tt, so[1]) {
+        if da.table_ty(i) != db.table_ty(j) {
+            return Err(Failure::new(
+                "custom-root:table-lost-or-changed",
+                format!("table {} ({:?}) rooted by a custom section is at output index {} as {:?} [{}]", i, da.table_ty(i), j, db.table_ty(j), origin),
+            ));
+        }
+    }
+    if let (Some(i), Some(j)) = (tg, so[2]) {
+        if da.global_ty(i) != db.global_ty(j) {
+            return Err(Failure::new(
+                "custom-root:global-lost-or-changed",
+                format!("global {} ({:?}) rooted by a custom section is at output index {} as {:?} [{}]", i, da.global_ty(i), j, db.global_ty(j), origin),
+            ));
+        }
+    }
     let mut iso = crate::iso::Iso::new(&da, &db);
     iso.tolerate = vec!["memarg-offset-truncated-to-u32".into()];
     match iso.run_gc() {
